@@ -655,7 +655,11 @@ impl WorldB {
                                 time_exchange: ts(*t),
                             })
                         } else {
-                            Err(OrderError::Connectivity(ConnectivityError::Timeout))
+                            match t.rem_euclid(3) {
+                                0 => Err(OrderError::Connectivity(ConnectivityError::Timeout)),
+                                1 => Err(OrderError::Rejected(ApiError::RateLimit)),
+                                _ => Err(OrderError::Rejected(ApiError::OrderRejected("sim".into()))),
+                            }
                         },
                     }),
                 }))
